@@ -350,6 +350,7 @@ package evaluator
 //@   ensures[C01 C17] case.SelectObjectCurrent: isType(node, "*parser.SelectObjectCurrentNode") && err == nil ==> (current != nil ==> isObj(result) && (forall k Int :: hasKey(obj(result), k) <==> hasKey(as(node, "parser.SelectObjectCurrentNode").Fields, k)) && (forall k Int :: hasKey(as(node, "parser.SelectObjectCurrentNode").Fields, k) ==> isEv(e.root, getKey(as(node, "parser.SelectObjectCurrentNode").Fields, k), current, variables, getKey(obj(result), k))))
 //@   ensures[C01 C19] case.Let: isType(node, "*parser.DefineVariables") && err == nil ==> (exists s Int :: s != nil && sparent(heap, s) == variables && (forall k Int :: hasKey(as(node, "parser.DefineVariables").Variables, k) <==> mhasKey(heap, svars(heap, s), k)) && (forall k Int :: hasKey(as(node, "parser.DefineVariables").Variables, k) ==> isEv(e.root, getKey(as(node, "parser.DefineVariables").Variables, k), current, variables, mgetKey(heap, svars(heap, s), k))) && isEv(e.root, as(node, "parser.DefineVariables").Child, current, s, result))
 //@   ensures[C05 C14] case.Negate: isType(node, "*parser.NegateNode") && err == nil ==> (exists c Val :: isEv(e.root, as(node, "parser.NegateNode").Child, current, variables, c) && (isFlt(c) ==> result == mkF64(f64Neg(fval(c)))) && (!isFlt(c) && numOk(c) ==> result == mkDec(ite(decIsZero(numDec(c)), numDec(c), decNeg(numDec(c))))) && (!isFlt(c) && !numOk(c) ==> result == nil))
+//@   ensures[C02] case.NotNull: isType(node, "*parser.NotNullNode") && err == nil && result != nil ==> (exists k Int :: {as(node, "parser.NotNullNode").Arguments[k]} 0 <= k && k < len(as(node, "parser.NotNullNode").Arguments) && isEv(e.root, as(node, "parser.NotNullNode").Arguments[k], current, variables, result))
 //@   ensures[C01 C19] case.Variable: isType(node, "*parser.VariableNode") ==> (lookupOk(heap, variables, key(as(node, "parser.VariableNode").Name)) ==> err == nil && result == lookupVal(heap, variables, key(as(node, "parser.VariableNode").Name))) && (!lookupOk(heap, variables, key(as(node, "parser.VariableNode").Name)) ==> isType(err, "*github.com/woodsbury/jmespath/internal/evaluator.UndefinedVariableError"))
 //@   ensures[C02] case.Abs: isType(node, "*parser.AbsNode") && err == nil ==> (exists a_arg Val :: isEv(e.root, as(node, "parser.AbsNode").Argument, current, variables, a_arg) && returns("evaluator.abs", a_arg, result, err))
 //@   ensures[C05] case.Add: isType(node, "*parser.AddNode") && err == nil ==> (exists a_left Val, a_right Val :: isEv(e.root, as(node, "parser.AddNode").Left, current, variables, a_left) && isEv(e.root, as(node, "parser.AddNode").Right, current, variables, a_right) && returns("evaluator.add", a_left, a_right, result, err))
